@@ -7,6 +7,8 @@ def run(req):
     a = req.get("args", {})
     if fn in ("trajgrad.trap_grad", "trajgrad.min_trap_grad"):
         return _trap(fn, a)
+    if fn == "app.lls":
+        return _lls(a)
     if fn == "prox.check":
         return _prox(a)
     if fn == "linop.stack_params":
@@ -742,3 +744,114 @@ def _prox(a):
         if g(y) == 0.0 and np.max(np.abs(p - y)) > 1e-12:
             bad.append("feasible input was changed by %g" % np.max(np.abs(p - y)))
     return dict(reproduced=bool(bad), detail="; ".join(bad) or "minimiser, shape, idempotence hold")
+
+
+# ----------------------------------------------------------------------------- C14 LinearLeastSquares
+def _lls(a):
+    import sigpy as sp
+    rs = np.random.RandomState(int(a.get("seed", 0)))
+    cplx = bool(a.get("complex", False))
+    n, m = 4, 6
+    dt = np.complex128 if cplx else np.float64
+    rnd = lambda *s: (rs.standard_normal(s) + (1j * rs.standard_normal(s) if cplx else 0)).astype(dt)
+    if a.get("A") == "identity":
+        A = sp.linop.Identity([n])
+        Am = np.eye(n)
+        m = n
+    elif a.get("A") == "reshape":
+        A = sp.linop.Reshape([n], [n // 2, 2]) * sp.linop.Reshape([n // 2, 2], [n])
+        Am = np.eye(n)
+        m = n
+    else:
+        Am = rnd(m, n)
+        A = sp.linop.MatMul([n, 1], Am)
+    dense = a.get("A") not in ("identity", "reshape")
+    shape_x = [n, 1] if dense else [n]
+    y = rnd(m, 1) if dense else rnd(m)
+    lam = float(a.get("lam", 0.0))
+    z = (rnd(*shape_x) if a.get("z") else None)
+    gk = a.get("g")
+    Gk = a.get("G")
+    if Gk == "dense":
+        Gm = rnd(5, n)
+        G = sp.linop.MatMul(shape_x, Gm) if dense else sp.linop.Reshape([5], [5, 1]) * sp.linop.MatMul([n, 1], Gm) * sp.linop.Reshape([n, 1], [n])
+    elif Gk == "fd":
+        G = sp.linop.FiniteDifference(shape_x, axes=[0])
+        Gm = np.eye(n) - np.roll(np.eye(n), 1, axis=0)
+    elif Gk == "square":
+        Gm = rnd(n, n)
+        G = sp.linop.MatMul(shape_x, Gm) if dense else None
+    else:
+        G, Gm = None, np.eye(n)
+    w = 0.3
+    if gk == "l1":
+        proxg = sp.prox.L1Reg(G.oshape if G is not None else shape_x, w)
+        gval = lambda v: w * float(np.sum(np.abs(v)))
+        prox_np = lambda t, v: v / np.maximum(np.abs(v), 1e-300) * np.maximum(np.abs(v) - t * w, 0)
+    elif gk == "l2":
+        proxg = sp.prox.L2Reg(G.oshape if G is not None else shape_x, w)
+        gval = lambda v: w / 2 * float(np.sum(np.abs(v) ** 2))
+        prox_np = lambda t, v: v / (1 + t * w)
+    elif gk == "box":
+        proxg = sp.prox.BoxConstraint(G.oshape if G is not None else shape_x, -0.2, 0.3)
+        gval = lambda v: 0.0 if np.all((v.real >= -0.2 - 1e-7) & (v.real <= 0.3 + 1e-7)) else np.inf
+        prox_np = lambda t, v: np.clip(v.real, -0.2, 0.3).astype(v.dtype)
+    else:
+        proxg, gval, prox_np = None, (lambda v: 0.0), (lambda t, v: v)
+    yv = y.ravel()
+    zv = None if z is None else z.ravel()
+
+    def F(x):
+        xv = np.asarray(x).ravel()
+        f = 0.5 * float(np.linalg.norm(Am @ xv - yv) ** 2)
+        if proxg is not None:
+            f += gval(Gm @ xv if G is not None else xv)
+        if lam > 0:
+            f += lam / 2 * float(np.linalg.norm(xv - (0 if zv is None else zv)) ** 2)
+        return f
+    # reference optimum by a long ADMM run in plain numpy on  min f(x) + g(v), v = Gx
+    rho = 1.0
+    xr = np.zeros(n, dt)
+    v = np.zeros(Gm.shape[0], dt)
+    u = np.zeros_like(v)
+    H = Am.conj().T @ Am + lam * np.eye(n) + rho * Gm.conj().T @ Gm
+    Hi = np.linalg.inv(H)
+    for _ in range(int(a.get('ref_iters', 5000))):
+        rhs = Am.conj().T @ yv + (lam * zv if zv is not None else 0) + rho * Gm.conj().T @ (v - u)
+        xr = Hi @ rhs
+        v = prox_np(1 / rho, Gm @ xr + u) if proxg is not None else Gm @ xr + u
+        u = u + Gm @ xr - v
+    if proxg is None:
+        xr = np.linalg.solve(Am.conj().T @ Am + lam * np.eye(n) + 1e-300 * np.eye(n), Am.conj().T @ yv + (lam * zv if zv is not None else 0)) if (lam > 0 or np.linalg.matrix_rank(Am) == n) else xr
+    Fref = F(xr if gk != "box" or G is None else xr)
+    solver = a.get("solver")
+    kw = dict(proxg=proxg, lamda=lam, G=G, z=z, solver=solver, show_pbar=False, max_iter=int(a.get("max_iter", 2500)))
+    if solver == "ADMM":
+        kw["max_iter"] = 600
+        kw["max_cg_iter"] = 30
+    if a.get("x0"):
+        kw["x"] = np.zeros(shape_x, dt)
+    y0, z0 = y.copy(), (None if z is None else z.copy())
+    try:
+        app = sp.app.LinearLeastSquares(A, y, **kw)
+        x = app.run()
+    except Exception as e:
+        return dict(reproduced=bool(a.get("must_work", True)), detail="raised %s: %s" % (type(e).__name__, str(e)[:200]))
+    bad = []
+    if not np.array_equal(y, y0):
+        bad.append("y was modified (max change %g)" % float(np.max(np.abs(y - y0))))
+    if z is not None and not np.array_equal(z, z0):
+        bad.append("z was modified")
+    if not np.all(np.isfinite(x)):
+        bad.append("non-finite solution")
+    else:
+        Fx = F(x)
+        tol = float(a.get("tol", 2e-3))
+        if gk == "box" and not np.isfinite(Fx):
+            xv = np.asarray(x).ravel()
+            viol = float(np.max(np.maximum((Gm @ xv if G is not None else xv).real - 0.3, -0.2 - (Gm @ xv if G is not None else xv).real)))
+            if viol > 1e-3:
+                bad.append("solution violates the box by %g" % viol)
+        elif Fx > Fref + tol * max(1.0, abs(Fref)):
+            bad.append("objective %.8g exceeds the optimum %.8g (relative gap %.3g)" % (Fx, Fref, (Fx - Fref) / max(1.0, abs(Fref))))
+    return dict(reproduced=bool(bad), detail="; ".join(bad) or "optimal within tolerance, inputs untouched")
